@@ -644,6 +644,42 @@ impl C19 {
             Ok(Ok(s)) => s,
         };
         ctx.count("outputs_ok");
+        // the same call into a writer that runs out of room after part of the output: it "returns a result without
+        // panicking" - and the result cannot be Ok, the output did not fit
+        if out.len() >= 2 && rng.chance(1, 6) {
+            let room = rng.below(out.len() - 1);
+            let r = guard(|| {
+                let h = xot.html5();
+                let mut fw = FailingWriter::new(room);
+                let r = if with_norm {
+                    h.serialize_write_with_normalizer(params.clone(), target, &mut fw, TestNormalizer)
+                } else if plain_params && rng.bool() {
+                    h.write(target, &mut fw)
+                } else {
+                    h.serialize_write(params.clone(), target, &mut fw)
+                };
+                (r.is_ok(), fw.failures)
+            });
+            match r {
+                Ok((false, _)) => ctx.count("failing_writer_reported_as_error"),
+                Ok((true, failures)) => {
+                    ctx.violation(
+                        "the writer failed and the call returned Ok",
+                        "C19/failing-writer/reported-ok".to_string(),
+                        base(format!("the writer had room for {} of {} bytes and failed {} calls", room, out.len(), failures), &out),
+                    );
+                    return;
+                }
+                Err(p) => {
+                    ctx.violation(
+                        "HTML5 serialisation panicked when its writer failed",
+                        format!("C19/panic/failing-writer/{}", p.sig()),
+                        base(format!("the writer had room for {} of {} bytes; {}", room, out.len(), p.short()), &out),
+                    );
+                    return;
+                }
+            }
+        }
         if kind == "detached-pi-with-gt" {
             ctx.violation(
                 "a processing instruction containing '>' was emitted instead of refused",
